@@ -315,7 +315,7 @@ fn pair_variant(c: &Value, la: &LBox, lb: &LBox, m: &Motion, none_enc: bool, vna
     }
 }
 
-fn panic_text(p: &Box<dyn std::any::Any + Send>) -> String {
+pub fn panic_text(p: &Box<dyn std::any::Any + Send>) -> String {
     if let Some(s) = p.downcast_ref::<&str>() {
         s.to_string()
     } else if let Some(s) = p.downcast_ref::<String>() {
